@@ -276,6 +276,36 @@ func runSurveyNoLimitOutlastsDefault(c *Ctx) {
 	e.Finish()
 }
 
+// directed: a response that arrived in time but was not read before the survey expired is gone with the survey — a Recv
+// issued long after expiry fails with the protocol-state error instead of handing it out (socket and opened context)
+func runSurveyQueuedResponseAfterExpiry(c *Ctx, ctx int) {
+	e := NewExec(c, "m.surv", surveyor.NewProtocol(), "surveyor")
+	e.timed, e.canonIDs = true, true
+	e.AddPipe(801)
+	if ctx != 0 {
+		e.OpenCtx(ctx)
+	}
+	e.SetOpt(ctx, mangos.OptionSurveyTime, "60", 60*time.Millisecond)
+	e.Send(ctx, nil, []byte{'Q', 1})
+	if !e.idKnown {
+		e.Finish()
+		return
+	}
+	t0 := time.Now()
+	e.InjectCanon(801, append(be32(0x80000001), 'A', '1'))
+	e.InjectCanon(801, append(be32(0x80000001), 'A', '2'))
+	e.Sleep(750)
+	for k := 0; k < 2 && !e.broken; k++ {
+		id := e.Recv(ctx)
+		for _, ev := range splitEvents(lastObs(e)) {
+			if ev.kind == "ret" && ev.call == id && ev.msg != nil {
+				c.Violate(fmt.Sprintf("SURVEYOR: Recv issued %v after the survey started (survey time 60 ms) returned the response %q, which had arrived in time but was not read before the survey expired; expected the protocol-state error", time.Since(t0).Round(time.Millisecond), ev.msg), e.Replay())
+			}
+		}
+	}
+	e.Finish()
+}
+
 func runC07(c *Ctx) {
 	c.Rep.Rule = "random histories on a real surveyor protocol instance through virtual pipes with a 60 ms survey time: surveys on 1-3 contexts, responses carrying the current / an earlier / another context's / a never-issued id, ids without the request bit, short bodies, Recv before and after expiry (real sleeps), slow and failing respondents; " +
 		"ids canonicalised to 0x80000000|k; every operation (with the monotonic clock) is checked against the Lean machine whose timers may fire once due and must have fired once overdue; class = (operation, shape of outcome)"
@@ -290,6 +320,8 @@ func runC07(c *Ctx) {
 		runSurveyorScenario(c, 25, true) // an accepted survey time of zero means no limit
 	}
 	runSurveyNoLimitOutlastsDefault(c)
+	runSurveyQueuedResponseAfterExpiry(c, 0)
+	runSurveyQueuedResponseAfterExpiry(c, 1)
 	// raw SURVEYOR: no survey state, but every connected respondent is sent each survey, queue space permitting
 	// "each RESPONDENT answer reaches only the surveyor that asked": the reply-side machine of C05 on the two respondent flavours
 	for i := 0; i < n/2; i++ {
